@@ -8,7 +8,8 @@
    a SmartNIC component carries exactly one network service; [compat_*] (boolean): an element present in both
    versions keeps its type (no edit of the property's edit vocabulary changes a type). *)
 From Coq Require Import List NArith ZArith Bool.
-From FIM Require Import Model.Diff17 Proofs.Diff17Lemmas Proofs.Diff17Edits Proofs.Diff17Fixed.
+From FIM Require Import Model.Diff17 Model.TopoDiff17 Proofs.Diff17Lemmas Proofs.Diff17Edits Proofs.Diff17Fixed
+  Proofs.Diff17History Proofs.TopoDiff17.
 Import ListNotations.
 
 (* ---- 1. comparing a sliver with an identical copy reports no difference ---------------------- *)
@@ -161,6 +162,71 @@ Theorem C17_change_node_properties_reported : forall s p,
 Proof. exact set_props_reported. Qed.
 Print Assumptions C17_change_node_properties_reported.
 
+(* ---- 5. histories on long-lived slivers ------------------------------------------------------- *)
+(* The modelled comparison is a function of its two operands, so these hold by construction; they are what the
+   `history` stream checks of the implementation (edit in place, compare, edit more, compare again, undo, compare;
+   every call twice, deep snapshots of both operands around each call). *)
+
+Theorem C17_diff_history_memoryless : forall pre a b post,
+  nth_error (run_history (pre ++ (a, b) :: post)) (length pre) = Some (node_diff a b).
+Proof. exact history_memoryless. Qed.
+Print Assumptions C17_diff_history_memoryless.
+
+Theorem C17_diff_history_repeatable : forall h i j p,
+  nth_error h i = Some p -> nth_error h j = Some p -> nth_error (run_history h) i = nth_error (run_history h) j.
+Proof. exact history_repeatable. Qed.
+Print Assumptions C17_diff_history_repeatable.
+
+Theorem C17_diff_history_undo_none : forall h s,
+  wf_node s = true -> nth_error (run_history (h ++ [(s, s)])) (length h) = Some (Ok None).
+Proof. exact history_undo_none. Qed.
+Print Assumptions C17_diff_history_undo_none.
+
+(* ---- 6. Topology.diff (Model/TopoDiff17.v: the Python of fim/user/topology.py over flat graph views; the two
+        Cypher queries as read there, modelled not verified) ----------------------------------------------- *)
+
+Theorem C17_topology_self_copy_empty : forall t, wf_topo t = true -> tdiff_empty (topo_diff t t) = true.
+Proof. exact topo_diff_self. Qed.
+Print Assumptions C17_topology_self_copy_empty.
+
+(* The full statement  forall a b, wf_topo a = true -> wf_topo b = true -> topo_diff a b = topo_expected a b  is FALSE
+   of the modelled method, in two ways (findings C17-T2 and C17-T1; witnesses replayed through the stand-in): *)
+Theorem C17_topology_exact_refuted_silent_change :
+  wf_topo wt1_old = true /\ wf_topo wt1_new = true /\ topo_diff wt1_old wt1_new <> topo_expected wt1_old wt1_new /\
+  tdiff_empty (topo_diff wt1_old wt1_new) = true /\ tdiff_empty (topo_expected wt1_old wt1_new) = false.
+Proof. exact topo_exact_refuted_silent_change. Qed.
+Print Assumptions C17_topology_exact_refuted_silent_change.
+
+Theorem C17_topology_exact_refuted_last_of_class :
+  wf_topo wt2_old = true /\ wf_topo wt2_new = true /\ topo_diff wt2_old wt2_new <> topo_expected wt2_old wt2_new /\
+  tdiff_empty (topo_diff wt2_old wt2_new) = true /\ tdiff_empty (topo_expected wt2_old wt2_new) = false.
+Proof. exact topo_exact_refuted_last_of_class. Qed.
+Print Assumptions C17_topology_exact_refuted_last_of_class.
+
+(* [visible_pair] excludes exactly the two signatures: no class is empty on one side only, and every element whose
+   capacities or user data changed also changed its labels *)
+Theorem C17_topology_exact_partial : forall a b,
+  wf_topo b = true -> visible_pair a b = true -> topo_diff a b = topo_expected a b.
+Proof. exact topo_diff_exact_partial. Qed.
+Print Assumptions C17_topology_exact_partial.
+
+Theorem C17_topology_added_is_removed : forall a b,
+  td_added (topo_diff a b) = td_removed (topo_diff b a) /\ td_removed (topo_diff a b) = td_added (topo_diff b a).
+Proof. exact topo_antisym. Qed.
+Print Assumptions C17_topology_added_is_removed.
+
+Theorem C17_topology_expected_added_reading : forall a b x,
+  In x (only_in a b) <-> In x a /\ ~ In (g_id x) (map g_id b).
+Proof. exact only_in_spec. Qed.
+Print Assumptions C17_topology_expected_added_reading.
+
+Theorem C17_topology_expected_modified_reading : forall a b x f,
+  NoDup (map g_id b) ->
+  (In (x, f) (exp_gmod a b) <->
+   In x a /\ exists y, In y b /\ g_id y = g_id x /\ f = gflags x y /\ is_none f = false).
+Proof. exact exp_gmod_spec. Qed.
+Print Assumptions C17_topology_expected_modified_reading.
+
 (* ---- non-vacuity ------------------------------------------------------------------------------ *)
 
 Local Open Scope N_scope.
@@ -196,4 +262,16 @@ Example C17_nonvacuous_service :
   let b := ex_svc 11 [ex_port 12 101 [ex_sub 13 5; ex_sub 15 6]; ex_port 14 200 []] in
   wf_svc a = true /\ wf_svc b = true /\ compat_svc a b = true /\ no_port_only_change a b = true /\
   obs_of_sdiff a (svc_diff a b) = ODiff [[]; []; []; []] [[]; []; []; []] [[]; []; []; [((12, 12), 9)]]%N.
+Proof. vm_compute. repeat split; reflexivity. Qed.
+
+(* a topology pair inside the partial theorem's domain with a non-trivial difference: node 1 relabelled (and its
+   capacities changed), node 2 removed with its component 20 (left to the parent), component 11 added to node 1 *)
+Example C17_nonvacuous_topology :
+  let a := mkTopo [mkG 1 1 (Some 5) (Some 6) None None; mkG 2 2 None None None None]
+                  [mkG 10 10 None None None (Some 1); mkG 20 20 None None None (Some 2)] [] [] in
+  let b := mkTopo [mkG 1 1 (Some 7) (Some 8) None None]
+                  [mkG 10 10 None None None (Some 1); mkG 11 11 None None None (Some 1)] [] [] in
+  wf_topo a = true /\ wf_topo b = true /\ visible_pair a b = true /\
+  obs_of_tdiff (topo_diff a b)
+  = ODiff [[]; [(11, 11)]; []; []] [[(2, 2)]; []; []; []] [[((1, 1), 3)]; []; []; []].
 Proof. vm_compute. repeat split; reflexivity. Qed.
